@@ -48,7 +48,7 @@ ben("b-teletext-charsets-built-once", "sync.Once lazy initialisation of a read-o
 type teletextCharacterDecoder struct {"""),
     ("teletext.go", '\t"strings"\n\t"time"', '\t"strings"\n\t"sync"\n\t"time"'))
 ben("b-stl-readnbytes-readatleast", "equivalent refactoring of the block reader",
-    ("stl.go", "if n, err = io.ReadFull(i, o); err != nil {", "if n, err = io.ReadAtLeast(i, o, len(o)); err != nil {"))
+    ("stl.go", "	for n < c && err == nil {", "	for n < len(o) && err == nil {"))
 ben("b-webvtt-writer-bytes-buffer", "writer assembles the document in a bytes.Buffer and hands it over with one checked Write",
     ("webvtt.go", """	// Write
 	if _, err = o.Write(c); err != nil {
